@@ -324,7 +324,7 @@ def stepInplace (cx : Ctx) (rc : Recv) (op : String) (args : List String) (robs 
       | .ok d => pure { cx.same with data := d }
       | .error e => pure (cx.fail e)
     | _, _ => none
-  else if (op ∈ ["copy_from_slice", "copy_from_toodee", "copy_within"]) ∧ cx.elem ≠ .u32 then
+  else if (op ∈ ["copy_from_slice", "copy_from_toodee", "copy_within"]) ∧ ¬ cx.elem.copyOps then
     some { cx.same with status := "unsupported" }        -- `T: Copy` only
   else
     -- a comparator / key function made to panic (`!cmp:k`, `!key:k`): whether the side sort reaches its `k`-th call is std's
